@@ -109,7 +109,7 @@ pub fn record_temp(seed: u64, thorough: bool, path: &str) -> Value {
     // name parts that a path library may treat specially: dots (extensions), spaces, long parts
     hooks::set_thread_tag(threads + 2);
     let mut special: Vec<(String, String)> = Vec::new();
-    let mut parts: Vec<String> = ["part.v2", "archive.tar.gz", "dot.", ".hidden", "a b", "x..y", "p_1_2"].iter().map(|s| s.to_string()).collect();
+    let mut parts: Vec<String> = ["part.v2", "archive.tar.gz", "dot.", ".hidden", "a b", "x..y", "p_1_2", "sub-dir/", "sub//file", "sub/.", "sub/file", "./rel"].iter().map(|s| s.to_string()).collect();
     for n in [100usize, 200, 240, 245, 250, 255, 256, 300] { parts.push(format!("L{}{}", n, "z".repeat(n - 4))); }
     for part in parts.iter() { for _ in 0..3 { special.push((part.clone(), temp_file_name(part).to_string_lossy().to_string())); } }
     results.push(special);
@@ -144,10 +144,12 @@ pub fn record_temp(seed: u64, thorough: bool, path: &str) -> Value {
     let mut dup = 0;
     for (t, v) in results.iter().enumerate() {
         for (part, p) in v.iter() {
-            let pb = std::path::PathBuf::from(p);
-            let name = pb.file_name().unwrap().to_str().unwrap().to_string();
+            // a name part may contain path separators: the part is looked for in the whole path, and the whole path below the
+            // temporary directory is what must be unique
+            let tmp = std::env::temp_dir().to_string_lossy().to_string();
+            let name = p.strip_prefix(tmp.as_str()).map(|s| s.trim_start_matches('/').to_string()).unwrap_or_else(|| p.clone());
             if !all.insert(p.clone()) { dup += 1; }
-            out.push(json!({"e": "name", "thread": t, "path": name, "has_part": name.contains(part.as_str()), "has_pid": name.contains(&pid)}));
+            out.push(json!({"e": "name", "thread": t, "path": name, "has_part": p.contains(part.as_str()), "has_pid": name.contains(&pid)}));
         }
     }
     out.write(path);
